@@ -1,7 +1,7 @@
 """C18 — thread safety with locking enabled (DESIGN.md §3 C18; narrow)."""
 import re
 from engine.rulelib import *
-from engine import locks, callgraph
+from engine import locks, callgraph, tables
 
 EXPLANATION = (
     "Linearizability over schedules is NOT decidable by this family and is not claimed. Decided are necessary structural conditions. R1 (lock discipline): for every field of the frozen table field -> mutex (discovered with the "
@@ -389,6 +389,38 @@ def r6_locking_mode(ctx, prog):
             r.ok(f['qname'], site, '%s on %d successful paths' % (want if not bad else 'enable (stricter than required)', len(okp)), file=f['file'], line=f['line'])
 
 
+def r7_directory_and_index(ctx, prog):
+    """OSToken::index() compares the directory listing with the registered file names *under tokenMutex* and opens every file it does not know.  A file that appears in (or disappears
+    from) the token directory outside that mutex, before it is registered, is therefore opened a second time by a search running in another thread (or its live object is invalidated):
+    every creation of an object file (an ObjectFile constructed with isNew == true) and every removal of a file of the token directory by an OSToken instance method happens while
+    tokenMutex is held - in the same critical section that updates the registration."""
+    r = ctx.rule('C18.R7', 'object files are created and removed under the token mutex, in the critical section that registers them (index() in another thread must not see an unregistered file)', floor=5, engine='E4 lock scopes')
+    L = locks.analyse(prog)
+    for (q, sig), fl in sorted(L.items()):
+        f = fl.fn
+        if f.get('class') != 'OSToken' or f.get('static') or f.get('mkind') in ('ctor', 'dtor') or short(q) in ('createToken', 'accessToken'):
+            continue
+        for c, held in fl.calls:
+            what = None
+            if c.get('k') == 'New' and (c.get('type') or '').replace('class ', '') == 'ObjectFile' and c.get('args') and tables.const_eval(c['args'][-1]) == 1 and len(c['args']) >= 5:
+                what = 'creation of an object file'
+            elif c.get('k') == 'Call' and (c.get('callee') or '') in ('Directory::remove',):
+                what = 'removal of a file of the token directory'
+            if not what:
+                continue
+            ctx.analysed(f)
+            site = '%s@%d' % (what, c['l'])
+            if 'tokenMutex' in held:
+                r.ok(q, site, 'under tokenMutex', file=f['file'], line=c['l'])
+            else:
+                ok2, why2 = locks.callers_hold(prog, q, 'tokenMutex', 'OSToken')
+                if ok2:
+                    r.ok(q, site, 'every caller holds tokenMutex', file=f['file'], line=c['l'])
+                else:
+                    r.violation(q, site, 'the %s happens without tokenMutex held: a re-index by another thread (every C_FindObjectsInit, every isValid()) sees a directory that does not match the registered files and opens the file a second time / invalidates the live object - the object is duplicated or its handle dies' % what,
+                                file=f['file'], line=c['l'])
+
+
 def run(ctx):
     prog = ctx.prog('ossl-file')
     r1_discipline(ctx, prog)
@@ -396,9 +428,12 @@ def run(ctx):
     r4_callbacks(ctx, prog)
     r5_split_sections(ctx, prog)
     r6_locking_mode(ctx, prog)
+    r7_directory_and_index(ctx, prog)
 
 
 MUTANTS = [
+    dict(name='createobject-writes-file-before-lock', rule='C18.R7', file='src/lib/object_store/OSToken.cpp', after='OSObject* OSToken::createObject()',
+         old='\tMutexLocker lock(tokenMutex);\n\n\t// Create the new object file\n\tObjectFile* newObject = new ObjectFile(this, objectPath, umask, lockPath, true);\n', new='\tObjectFile* newObject = new ObjectFile(this, objectPath, umask, lockPath, true);\n\tMutexLocker lock(tokenMutex);\n'),
     dict(name='initialize-callbacks-installed-not-enabled', rule='C18.R6', file='src/lib/SoftHSM.cpp', after='CK_RV SoftHSM::C_Initialize(',
          old='\t\t\tMutexFactory::i()->setUnlockMutex(args->UnlockMutex);\n\t\t\tMutexFactory::i()->enable();\n', new='\t\t\tMutexFactory::i()->setUnlockMutex(args->UnlockMutex);\n'),
     dict(name='token-decrypt-narrowed-lock', rule='C18.R1', file='src/lib/slot_mgr/Token.cpp', after='bool Token::decrypt(const ByteString &encrypted, ByteString &plaintext)',
